@@ -156,6 +156,7 @@ def observe():
   """Observation vector through the public API (the state is consumed: calls are made)."""
   obs = {}
   obs['config_str'] = gin.config_str()
+  obs['config_str_provenance'] = gin.config_str(show_provenance=True)
   obs['operative'] = gin.operative_config_str()
   obs['locked'] = gin.config_is_locked()
   for k in KEYS:
@@ -182,6 +183,8 @@ def observe():
   except Exception as e:  # pylint: disable=broad-except
     obs['bind_after'] = 'raised %s' % type(e).__name__
   obs['operative_after'] = gin.operative_config_str()
+  obs['operative_after_provenance'] = gin.operative_config_str(show_provenance=True)
+  obs['config_after_provenance'] = gin.config_str(show_provenance=True)
   return obs
 
 
